@@ -688,4 +688,69 @@ theorem excluded_is_disjunction (st : State) (e : Entry) :
     repeat' split
     all_goals simp_all
 
+/-! ### Per-pathname exclusion records: the last registration wins (all four time fields)
+
+`add_entry` overwrites an existing record for the same pathname ("We always overwrite comparison condition").
+After a successful `archive_match_exclude_entry`, *every* record for that pathname carries exactly the flag
+and the four time fields of the entry just registered, whatever was registered for it before, and records of
+other pathnames are untouched. -/
+theorem excludeEntry_last_wins (st st' : State) (flag : Nat) (e : Entry) (pn : List Nat)
+    (hp : e.path = some pn) (h : excludeEntry st flag e = some st') :
+    (∃ g ∈ st'.exclFiles, g.path = pn) ∧
+    (∀ g ∈ st'.exclFiles, g.path = pn →
+      g = ⟨pn, flag, e.mtimeSec, e.mtimeNsec, e.ctimeSec, e.ctimeNsec⟩) := by
+  unfold excludeEntry at h
+  split at h
+  · cases h
+  · simp only [hp] at h
+    split at h
+    · rename_i hany
+      cases h
+      simp only [List.any_eq_true, beq_iff_eq] at hany
+      obtain ⟨g0, hg0, hg0p⟩ := hany
+      refine ⟨⟨_, List.mem_map.mpr ⟨g0, hg0, rfl⟩, by simp [hg0p]⟩, ?_⟩
+      intro g hg hgp
+      obtain ⟨g1, _, rfl⟩ := List.mem_map.mp hg
+      by_cases h1 : g1.path = pn
+      · simp [h1]
+      · simp [h1] at hgp
+    · rename_i hany
+      cases h
+      refine ⟨⟨_, List.mem_append_right _ (List.mem_singleton.mpr rfl), rfl⟩, ?_⟩
+      intro g hg hgp
+      rcases List.mem_append.mp hg with hg | hg
+      · exfalso; apply hany
+        simp only [List.any_eq_true, beq_iff_eq]
+        exact ⟨g, hg, hgp⟩
+      · exact List.mem_singleton.mp hg
+
+theorem excludeEntry_others_kept (st st' : State) (flag : Nat) (e : Entry) (pn : List Nat)
+    (hp : e.path = some pn) (h : excludeEntry st flag e = some st') (g : ExclFile) (hg : g.path ≠ pn) :
+    g ∈ st'.exclFiles ↔ g ∈ st.exclFiles := by
+  unfold excludeEntry at h
+  split at h
+  · cases h
+  · simp only [hp] at h
+    split at h
+    · cases h
+      simp only [List.mem_map]
+      constructor
+      · rintro ⟨g1, hg1, rfl⟩
+        by_cases h1 : g1.path = pn
+        · simp [h1] at hg
+        · simpa [h1] using hg1
+      · intro hm; exact ⟨g, hm, by simp [hg]⟩
+    · cases h
+      simp only [List.mem_append, List.mem_singleton]
+      constructor
+      · rintro (h | rfl)
+        · exact h
+        · exact absurd rfl hg
+      · exact Or.inl
+
+/-- Non-vacuity: a second registration with different mtime/ctime nanoseconds replaces all four fields. -/
+example : (excludeEntry { exclFiles := [⟨[102], matchCtime ||| matchOlder, 100, 700, 100, 300⟩] }
+    (matchCtime ||| matchOlder) { path := some [102], mtimeSec := 100, mtimeNsec := 500, ctimeSet := true, ctimeSec := 100, ctimeNsec := 900 }).map (·.exclFiles)
+    = some [⟨[102], matchCtime ||| matchOlder, 100, 500, 100, 900⟩] := by decide
+
 end LA.C16
